@@ -181,10 +181,16 @@ class World:
                 self.home[a['x']] = a['m']
                 return '', ''
             if op == 'add_ents':
+                # add_ents() accepts any iterable: rotate through a list, a tuple, a generator and a
+                # plain iterator (one-shot iterables must be indexed exactly like lists)
+                self._addents_n = getattr(self, '_addents_n', 0) + 1
+                ents = [self.ents[x] for x in a['xs']]
+                form = (self._addents_n + len(ents)) % 4
+                arg = (ents, tuple(ents), (e for e in ents), iter(ents))[form]
                 if a['xs']:
-                    self.maps[self.home[a['xs'][0]]].add_ents([self.ents[x] for x in a['xs']])
+                    self.maps[self.home[a['xs'][0]]].add_ents(arg)
                 else:
-                    self.maps['m1'].add_ents([])
+                    self.maps['m1'].add_ents(arg)
                 return '', ''
             e = self.ents[a['x']]
             vmf = self.maps[self.home[a['x']]]
